@@ -87,14 +87,25 @@ async def _main(loop, params, result):
     gathers, gsize = [], []
     gin = wf.create_port(name="gin")
     cur = gin
-    for k in reversed(range(D)):
-        sp = wf.create_port(name=f"gsize{k}")
-        g = wf.create_step(GatherStep, name=f"/g{k}-gather", size_port=sp, depth=1)
+    flat = bool(params.get("flat"))
+    if flat:
+        # ONE gather of depth D collecting all leaves into a flat list (what the CWL translator builds for
+        # scatterMethod flat_crossproduct); its size token carries the total number of leaves
+        sp = wf.create_port(name="gsizeflat")
+        g = wf.create_step(GatherStep, name="/gflat-gather", size_port=sp, depth=D)
         g.add_input_port("x", cur)
-        cur = wf.create_port(name=f"g{k}out")
+        cur = wf.create_port(name="gflatout")
         g.add_output_port("x", cur)
         gathers.append(g)
-        gsize.append((k, sp))
+    else:
+        for k in reversed(range(D)):
+            sp = wf.create_port(name=f"gsize{k}")
+            g = wf.create_step(GatherStep, name=f"/g{k}-gather", size_port=sp, depth=1)
+            g.add_input_port("x", cur)
+            cur = wf.create_port(name=f"g{k}out")
+            g.add_output_port("x", cur)
+            gathers.append(g)
+            gsize.append((k, sp))
     out_port = cur
     await wfkit.save_workflow(wf)
     # phase 1: produce the scattered tokens with the real code (default schedule, no choices)
@@ -121,6 +132,12 @@ async def _main(loop, params, result):
     # phase 2: gathers run; driver delivers
     streams = [Stream("elems", gin, [t for t in elems_port.token_list if not isinstance(t, TerminationToken)],
                       fifo=False, final=TerminationToken())]
+    if flat:
+        from streamflow.core.workflow import Token as _Token
+
+        leaves = [t for t in elems_port.token_list if not isinstance(t, TerminationToken)]
+        streams.append(Stream("sizeflat", sp, [_Token(len(leaves), tag=tag, recoverable=True)], fifo=True,
+                              final=TerminationToken()))
     for k, sp in gsize:
         src = scatters[k].get_size_port()
         streams.append(Stream(f"size{k}", sp, [t for t in src.token_list if not isinstance(t, TerminationToken)],
@@ -134,13 +151,19 @@ async def _main(loop, params, result):
     result["made"] = made
     result["out"] = wfkit.port_dump(out_port)
     result["statuses"] = [g.status.name for g in gathers]
-    result["expected"] = wfkit._freeze(wfkit.PYFUNCS["inc"](value))
+    exp = wfkit.PYFUNCS["inc"](value)
+    if flat:
+        def _flatten(v, d):
+            return v if d == 0 else [y for x in v for y in _flatten(x, d - 1)]
+
+        exp = _flatten(exp, D - 1)
+    result["expected"] = wfkit._freeze(exp)
     await ctx.close()
 
 
 def judge(params, ex, result):
     fails = []
-    base = f"C01|direct|shape={params['shape']}|elem={params['elem']}|tag={params['tag']}"
+    base = f"C01|direct|shape={params['shape']}|elem={params['elem']}|tag={params['tag']}" + ("|flat" if params.get("flat") else "")
     if ex.hang:
         fails.append((base + "|hang", f"gather never terminates; pending={ex.pending} deliveries={result.get('made')}"))
         return fails
@@ -218,6 +241,11 @@ def cases_for(tier):
     nested = [[2, 2], [1, 0, 2]] if tier == "quick" else [[2, 2], [2, 3], [1, 0, 2], [[2, 1], [1]], [[1, 1], [2]], [0, 0]]
     for sh in nested:
         cases.append({"kind": "direct", "shape": sh, "elem": "scalar", "tag": "0", "bound": 0 if tier == "quick" else 1})
+    # nested scatter collected by ONE gather of depth 2/3 (flat cross product)
+    flat = [[2, 2], [1, 0, 2]] if tier == "quick" else [[2, 2], [2, 3], [3, 2], [1, 0, 2], [0, 0], [[2, 1], [1]], [[1, 1], [2]], [11, 2]]
+    for sh in flat:
+        cases.append({"kind": "direct", "shape": sh, "elem": "scalar", "tag": "0", "flat": True,
+                      "bound": 0 if (tier == "quick" or sh == [11, 2]) else 1})
     return cases
 
 
